@@ -444,7 +444,7 @@ func (g *gen) frameObligations(key string) {
 	sort.Strings(comps)
 	top0 := g.stGet(g.entry, "alloctop")
 	for _, c := range comps {
-		if c == "alloctop" {
+		if c == "alloctop" || c == epochKey {
 			continue
 		}
 		var conj []string
